@@ -508,6 +508,20 @@ func (w *shapeWalker) object(t types.Type, s *openapi3.Schema, key, where string
 				problems = append(problems, fmt.Sprintf("property %q is not removed from the raw map, so it would be duplicated into additionalProperties", k))
 			}
 			problems = append(problems, rd.Problems...)
+			if ps != nil && ps.Value != nil && !isCustom(ps.Value) {
+				if exp := expectedFor(ps.Value); exp.goBase != "" && !exp.array {
+					for _, dt := range rd.DecodeTargets {
+						base, _, _ := goBaseOf(dt)
+						if n, ok := types.Unalias(dt).(*types.Named); ok && n.Obj().Pkg() != nil && n.Obj().Pkg().Path() == "encoding/json" {
+							base = "json." + n.Obj().Name()
+						}
+						okBase := base == exp.goBase || (exp.goBase == "time.Time" && base == "string") || (exp.goBase == "float32" && base == "float64")
+						if !okBase {
+							problems = append(problems, fmt.Sprintf("property %q (%s/%s) is decoded through a variable of type %s: encoding/json then no longer rejects values of the wrong JSON type (e.g. a numeric string for an integer)", k, ps.Value.Type, ps.Value.Format, dt.String()))
+						}
+					}
+				}
+			}
 			if ps != nil && ps.Value != nil && !isCustom(ps.Value) && rd.NullTest != ps.Value.Nullable {
 				problems = append(problems, fmt.Sprintf("property %q: schema nullable=%v but the reader special-cases null=%v", k, ps.Value.Nullable, rd.NullTest))
 			}
